@@ -15,7 +15,8 @@ OFFSETS = ["E_L/tau", "I_e/C_m", "1", "3/2", "I_e", "-E_L*g_L/C_m", "2.5", "E_L 
 NAMES = ["V_m", "x", "y", "z", "g_ex", "I_in", "u", "q", "r1", "s_2"]
 SHAPES = ["isolated", "chain", "fan_in", "fan_out", "cycle", "antisym", "nonadjacent", "offset_single", "offset_in_group",
           "depends_on_offset", "numeric_dep_analytic", "analytic_dep_numeric", "higher_order", "higher_order_offset", "mixed_nonlinear",
-          "time_dependent", "dense3", "chain_to_nonlinear", "chain_from_offset", "const_drift", "lin_and_nonlin_same_var", "numeric_reads_derivative", "tiny_literals", "higher_order_driven"]
+          "time_dependent", "dense3", "chain_to_nonlinear", "chain_from_offset", "const_drift", "lin_and_nonlin_same_var", "numeric_reads_derivative", "tiny_literals", "higher_order_driven",
+          "tiny_weights", "exact_constants", "sum_coefficients", "second_order_real"]
 
 
 def nonlinear_term(rng, me, others):
@@ -47,7 +48,7 @@ def make_truth(rng, shape=None, n=None):
     cf = lambda: rng.choice(COEFFS)       # noqa: E731
 
     def ent(name, order=1, lin=None, off=None, nonlin=None, tterm=None):
-        iv = [rng.choice(["0", "1", "1/2", "e/tau", "2.5", "-1", "E_L"]) for _ in range(order)]
+        iv = [rng.choice(["0", "1", "1/2", "e/tau", "2.5", "-1", "E_L", "2.5E-10", "1E-20", "7E-30", "-3.0E-10"]) for _ in range(order)]
         T.entries.append({"name": name, "order": order, "lin": lin or {}, "off": off, "nonlin": nonlin or [], "tterm": tterm, "iv": iv})
     a, b, c, d = names
     if shape == "isolated":
@@ -141,10 +142,44 @@ def make_truth(rng, shape=None, n=None):
         elif k == 1:
             ent(a, lin={b: cf()}, off=rng.choice(["2E-15", "-5E-15"]))
             ent(b, lin={b: dec()})
-        else:
-            ent(a, lin={a: rng.choice(["-2.5E-15", "-1E-14"])}, off=rng.choice(["1", "I_e"]))
+        elif k == 2:
+            ent(a, lin={a: rng.choice(["-2.5E-15", "-1E-14", "-3E-19"])}, off=rng.choice(["1", "I_e"]))
         if rng.random() < 0.4:
             ent(c, lin={c: dec()})
+    elif shape == "second_order_real":
+        # a second-order equation with real characteristic roots (always solvable by propagators) and DIFFERENT coefficients for x and x'
+        lin = rng.choice([{a: "-1/tau**2", a + "'": "-2/tau"}, {a: "-2", a + "'": "-3"}, {a: "-1/(tau*tau_s)", a + "'": "-1/tau - 1/tau_s"}, {a: "-6", a + "'": "-5"}])
+        ent(a, order=2, lin=lin)
+        if rng.random() < 0.5:
+            ent(b, lin={b: dec(), a + rng.choice(["", "'"]): cf()})
+    elif shape == "tiny_weights":
+        # particle-count / SI-unit models: a coupling or a nonlinear term whose numeric weight is far below machine epsilon is still a term
+        k = rng.choice([0, 1, 2])
+        wt = rng.choice(["1.0E-17", "2.5E-19", "-4E-18", "1E-30"])
+        if k == 0:
+            ent(a, lin={a: dec(), b: wt})                                  # reads a numerically solved variable through a tiny weight
+            ent(b, lin={b: dec()}, nonlin=[nonlinear_term(rng, b, [])])
+        elif k == 1:
+            ent(a, lin={a: dec()}, nonlin=["%s*%s**2" % (wt, a)])           # a tiny but genuine nonlinearity
+        else:
+            ent(c, lin={c: dec(), a: cf()})                                 # chain on top of the tiny coupling
+            ent(a, lin={a: dec(), b: wt})
+            ent(b, lin={b: dec()}, nonlin=[nonlinear_term(rng, b, [])])
+    elif shape == "exact_constants":
+        # no symbolic parameter anywhere: coefficients and offsets written with exact constants SymPy keeps symbolic (e, exp(-1), log(2), 2**(1/2))
+        kc = lambda: rng.choice(["-1/e", "-log(2)/10", "-exp(-1)", "-2**(1/2)", "-1/E", "-3"])      # noqa: E731
+        ent(a, lin={a: kc()}, off=rng.choice([None, None, "exp(-2)", "log(3)"]))
+        if rng.random() < 0.6:
+            ent(b, lin={b: kc(), a: rng.choice(["exp(-1)", "log(2)", "1/e", "2"])})
+    elif shape == "sum_coefficients":
+        # a coefficient that is itself a sum of terms (two leak paths, a rate plus a coupling): every place that re-builds text must parenthesise it
+        sc = lambda: rng.choice(["-1/tau - 1/tau_s", "-(1/tau + 1/tau_s)", "-g_L/C_m - a", "-a - b", "-1/tau - 2"])      # noqa: E731
+        ent(a, lin={a: sc()})
+        r = rng.random()
+        if r < 0.4:
+            ent(b, lin={b: sc(), a: rng.choice(["1/C_m + a", "a - b", "1/tau + 1/tau_s"])})
+        elif r < 0.7:
+            ent(b, lin={b: dec(), a: "1/C_m + a"}, nonlin=[nonlinear_term(rng, b, [])])
     elif shape == "chain_to_nonlinear":
         # w <- v <- u, u not analytically solvable (depth >= 2 so that the verdict has to travel)
         ent(a, lin={a: dec(), b: cf()})
@@ -270,7 +305,8 @@ def to_indict(rng, T, style=None, order=None, with_params=None, options=None, pa
         else:
             ks = list(range(e["order"]))
             if len(ks) > 1 and rng.random() < 0.5:
-                rng.shuffle(ks)        # the order in which the initial values are written is not significant
+                # the order in which the initial values are written is not significant: some other order than the ascending one
+                ks = ks[::-1] if len(ks) == 2 or rng.random() < 0.5 else ks[1:] + ks[:1]
             d["initial_values"] = {e["name"] + "'" * k: e["iv"][k] for k in ks}
         dyn.append(d)
     if order is not None:
@@ -286,6 +322,10 @@ def to_indict(rng, T, style=None, order=None, with_params=None, options=None, pa
     pv = dict(PARAM_VALUES)
     if param_values:
         pv.update(param_values)
+    elif rng.random() < 0.15:
+        # values that print in exponent notation (SI units): additive constants only, so that the dynamics keep their scale
+        pv["I_e"] = rng.choice(["3.0E-10", "250E-12", "1E-20"])
+        pv["E_L"] = rng.choice(["-5E-20", "-0.5", "4E-10"])
     if wp == "all":
         ind["parameters"] = {p: pv[p] for p in sorted(used)}
     elif wp == "partial" and used:
